@@ -1640,6 +1640,10 @@ class Comparator(BinaryOperator):
             raise ValueError(f"Unsupported operation: {self.operation.__name__}")
         self.operation = self.inverse_operation_map[prev_operation]
         self._node_.name = self._node_.name.replace(prev_operation.__name__, self.operation.__name__)
+        # results that were cached for the previous operation (the comparison was evaluated before it was negated)
+        # say nothing about the new one.
+        self._cache_.clear()
+        self._cached_with_false_results_ = None
 
     @property
     def _name_(self):
